@@ -548,6 +548,7 @@ var pureCallees = map[string]bool{
 func (fg *FGraph) SolveFacts(vi *varInfo) {
 	// universe
 	var all []Fact
+	genIdx := map[int][]int{}
 	idx := map[string]int{}
 	add := func(f Fact) int {
 		k := fg.factKey(f)
@@ -575,6 +576,15 @@ func (fg *FGraph) SolveFacts(vi *varInfo) {
 					add(Fact{a.Cond, a.Tag, !a.Truth})
 				}
 			}
+		}
+	}
+	for i, n := range fg.Nodes {
+		if n.N == nil {
+			continue
+		}
+		for _, gf := range genFactsOf(fg, vi, n.N) {
+			gens0 := add(gf)
+			genIdx[i] = append(genIdx[i], gens0)
 		}
 	}
 	deps := make([]factDeps, len(all))
@@ -636,9 +646,19 @@ func (fg *FGraph) SolveFacts(vi *varInfo) {
 			in[fg.Entry][add(a)] = true
 		}
 	}
+	// facts generated by assignments of constants to stable locals
+	gens := make([][]int, len(fg.Nodes))
+	for i, g := range genIdx {
+		gens[i] = g
+	}
 	transfer := func(i int, s factSet) factSet {
 		o := factSet{}
 		k := kills[i]
+		defer func() {
+			for _, g := range gens[i] {
+				o[g] = true
+			}
+		}()
 		for f := range s {
 			d := deps[f]
 			if k.store && d.nonLocal {
@@ -912,7 +932,11 @@ func (fg *FGraph) factKey(f Fact) string {
 		sb.WriteString(exprStr(e))
 		ast.Inspect(e, func(n ast.Node) bool {
 			if id, ok := n.(*ast.Ident); ok {
-				if o := fg.Info.Uses[id]; o != nil {
+				o := fg.Info.Uses[id]
+				if o == nil {
+					o = fg.Info.Defs[id]
+				}
+				if o != nil {
 					if _, isVar := o.(*types.Var); isVar {
 						fmt.Fprintf(&sb, "@%d", o.Pos())
 					}
@@ -1074,4 +1098,32 @@ func writesNothing(f *types.Func, depth int) bool {
 		writesNothingCache[f] = 1
 	}
 	return ok
+}
+
+// genFactsOf: facts established by executing node n (constant assignments).
+func genFactsOf(fg *FGraph, vi *varInfo, n ast.Node) []Fact {
+	as, ok := n.(*ast.AssignStmt)
+	if !ok || len(as.Lhs) != 1 || len(as.Rhs) != 1 || (as.Tok != token.ASSIGN && as.Tok != token.DEFINE) {
+		return nil
+	}
+	id, ok := ast.Unparen(as.Lhs[0]).(*ast.Ident)
+	if !ok {
+		return nil
+	}
+	ob := fg.Info.Uses[id]
+	if ob == nil {
+		ob = fg.Info.Defs[id]
+	}
+	if ob == nil || vi == nil || !vi.stable[ob] {
+		return nil
+	}
+	tv, ok := fg.Info.Types[as.Rhs[0]]
+	if !ok || tv.Value == nil || !isIntegerType(tv.Type) {
+		return nil
+	}
+	var out []Fact
+	for _, op := range []token.Token{token.EQL, token.GEQ, token.LEQ} {
+		out = append(out, Fact{&ast.BinaryExpr{X: id, Op: op, Y: as.Rhs[0]}, nil, true})
+	}
+	return out
 }
